@@ -395,25 +395,31 @@ def rule_d8(repo):
     from ..cfg import cfg_of
     res = RuleResult('C11.D8', 'every extension reaches the handler of its kind unconditionally (the handler, not the caller, decides about duplicates)', floor=8)
     for fn in ('unchecked_extend', 'checked_extend'):
-        f = repo.func('kernel/theory.py', 'Theory.' + fn)
+        from .checker_blocks import extend_func
+        f = extend_func(repo, fn)
         cfg = cfg_of(f.node)
         it = [n for n in cfg.nodes if n.kind == 'iter']
         need(it, 'Theory.%s: loop over the extensions not found' % fn)
-        for t in cfg.test_nodes():
-            if not (isinstance(t.ast, ast.Call) and isinstance(t.ast.func, ast.Attribute) and t.ast.func.attr in HANDLERS and not t.ast.args):
-                continue
+        kind_tests = [t for t in cfg.test_nodes() if isinstance(t.ast, ast.Call) and isinstance(t.ast.func, ast.Attribute) and
+                      t.ast.func.attr in HANDLERS and not t.ast.args]
+        for t in kind_tests:
             h = HANDLERS[t.ast.func.attr]
+            # an extension has one kind: with this test true, the other tests of the same kind are true and those of other kinds false
+            same = [u for u in kind_tests if u.ast.func.attr == t.ast.func.attr and src(u.ast.func.value) == src(t.ast.func.value)]
+            fixed = {(u.id, 'false') for u in same} | {(u.id, 'true') for u in kind_tests if u not in same and src(u.ast.func.value) == src(t.ast.func.value)}
+            if t is not min(same, key=lambda u: (u.ast.lineno, u.ast.col_offset, u.id)):
+                continue        # judged from the first test of this kind on
             calls = [n for n in cfg.nodes if n.kind == 'stmt' and n.ast is not None and not isinstance(n.ast, (ast.If, ast.For, ast.While, ast.Try)) and
                      any(isinstance(c, ast.Call) and call_attr(c) == h for c in ast.walk(n.ast))]
             start = [b for b, l in t.succ if l == 'true']
-            region = cfg.reach_from(start, skip_nodes=it)
+            region = cfg.reach_from(start, skip_nodes=it, skip_edges=fixed)
             calls = [c for c in calls if c.id in region]
             if not calls:
                 res.add('kernel/theory.py :: Theory.%s :: %s -> %s' % (fn, t.ast.func.attr, h), False,
                         'no call of %s in the branch for %s' % (h, t.ast.func.attr), '%s:%d' % ('kernel/theory.py', t.lineno))
                 continue
             # every path from the kind test to the next extension (or the end) passes the handler, unless it raises
-            r = cfg.reach_from(start, skip_nodes=calls)
+            r = cfg.reach_from(start, skip_nodes=calls, skip_edges=fixed)
             skipped = it[0].id in r or cfg.exit.id in r
             res.add('kernel/theory.py :: Theory.%s :: %s -> %s' % (fn, t.ast.func.attr, h), not skipped,
                     'the handler is reached on every path that does not raise' if not skipped else
